@@ -36,3 +36,138 @@ Proof. exact accounting_b_iff. Qed.
 Print Assumptions Tie_judge_agg.
 Print Assumptions Tie_judge_listing.
 Print Assumptions Tie_judge_accounting.
+
+(* ---- C06 / C07 / C15: checker <=> Prop, and property theorem => checker accepts
+   (Proofs/JudgeBridge.v uses C06_lower / C06_exhausts, C07_remove_* / C07_amend_* /
+   C07_update_price_same_rejected, C15_stats_mod / C15_value_executed_const by name).
+   [before] / [after] are any listings (permutations) of the resting orders. ---- *)
+From PL Require Import Spec.StatsSpec Spec.LedgerSpec Proofs.JudgeBridge.
+
+Theorem Tie_judge_exhaust : forall qty before after executed remaining,
+  exhaust_b qty before after executed remaining = true <->
+  N.min qty (sumv before) <= executed /\
+  (0 < remaining -> forall o, In o after -> vis o = 0).
+Proof. exact exhaust_b_iff. Qed.
+
+Theorem Tie_judge_exhaust_sound : forall mf, I_cons mf ->
+  forall fuel l g qty taker l' g' r before after,
+    Inv l -> qty < W ->
+    match_order mf fuel l g qty taker = Some (l', g', r) ->
+    Permutation before (resting l) -> Permutation after (resting l') ->
+    exhaust_b qty before after (executed_quantity r) (r_remaining r) = true.
+Proof. exact exhaust_judge_sound. Qed.
+
+Theorem Tie_judge_exhaust_sound_wf : forall mf, I_cons mf ->
+  forall fuel l g qty taker l' g' r before after,
+    WfQueue (lq l) ->
+    match_order mf fuel l g qty taker = Some (l', g', r) ->
+    Permutation before (resting l) -> Permutation after (resting l') ->
+    exhaust_b qty before after (executed_quantity r) (r_remaining r) = true.
+Proof. exact exhaust_judge_sound_wf. Qed.
+
+Theorem Tie_judge_stats : forall p h added removed qty value,
+  stats_b p h added removed qty value = true <->
+  added = n_added h mod W /\ removed = n_removed p h mod W /\
+  qty = qty_executed h mod W /\ value = val_executed h mod W /\
+  Forall (ev_tx_price p) h.
+Proof. exact stats_b_iff. Qed.
+
+(* the value summed from the transactions is quantity x price once they all carry the level price *)
+Theorem Tie_judge_stats_value : forall p h,
+  Forall (ev_tx_price p) h -> val_executed h = qty_executed h * p.
+Proof. exact val_executed_price. Qed.
+
+Theorem Tie_judge_stats_sound : forall mf, I_id mf ->
+  forall p g0 ops l g outs,
+    steps mf (new_level p, g0) ops (l, g) outs -> no_rebuild ops = true ->
+    all_added_at p ops ->
+    stats_b p (combine ops outs)
+            (s_added (st l)) (s_removed (st l)) (s_qty (st l)) (s_value (st l)) = true.
+Proof. exact stats_judge_sound. Qed.
+
+Theorem Tie_judge_update : forall p before u r after,
+  update_ok_b p before u r after = true <-> UpdateOk p before u r after.
+Proof. exact update_ok_b_iff. Qed.
+
+Theorem Tie_judge_update_counts : forall p before u cv ch cc cv' ch' cc',
+  update_counts_b p before u cv ch cc cv' ch' cc' = true <->
+  UpdateCounts p before u cv ch cc cv' ch' cc'.
+Proof. exact update_counts_b_iff. Qed.
+
+(* the two helpers of UpdateOk decide equality of finite maps *)
+Theorem Tie_judge_same_book : forall a b,
+  same_book_b a b = true <-> (forall k, lookup k a = lookup k b).
+Proof. exact same_book_b_iff. Qed.
+
+Theorem Tie_judge_same_book_except : forall k a b,
+  same_book_except_b k a b = true <-> (forall k', k' <> k -> lookup k' a = lookup k' b).
+Proof. exact same_book_except_b_iff. Qed.
+
+Theorem Tie_judge_update_sound : forall l u l' r before after,
+  NoDup (ids (resting l)) ->
+  update_order l u = (l', r) ->
+  Permutation before (resting l) -> Permutation after (resting l') ->
+  update_ok_b (price l) before u r after = true /\
+  update_counts_b (price l) before u (cvis l) (chid l) (ccnt l) (cvis l') (chid l') (ccnt l') = true.
+Proof. exact update_judge_sound. Qed.
+
+Theorem Tie_judge_update_sound_reachable : forall mf l g u l' r before after,
+  reachable mf (l, g) ->
+  update_order l u = (l', r) ->
+  Permutation before (resting l) -> Permutation after (resting l') ->
+  update_ok_b (price l) before u r after = true /\
+  update_counts_b (price l) before u (cvis l) (chid l) (ccnt l) (cvis l') (chid l') (ccnt l') = true.
+Proof. exact update_judge_sound_reachable. Qed.
+
+(* the judges are not vacuous: each rejects a wrong observation *)
+Example Tie_judge_exhaust_rejects :
+  let o := Standard (mkCommon (Uuid 1) 100 Sell 1 Gtc) 5 in
+  exhaust_b 3 [o] [o] 0 3 = false /\ exhaust_b 9 [o] [o] 5 4 = false /\ exhaust_b 9 [o] [] 5 4 = true.
+Proof. vm_compute. repeat split. Qed.
+
+Example Tie_judge_update_rejects :
+  let a := Standard (mkCommon (Uuid 1) 100 Sell 1 Gtc) 5 in
+  let b := Iceberg (mkCommon (Uuid 2) 100 Sell 2 Gtc) 4 9 in
+  let b' := Iceberg (mkCommon (Uuid 2) 100 Sell 2 Gtc) 1 9 in
+  update_ok_b 100 [a; b] (Cancel (Uuid 1)) (UOk (Some a)) [b] = true /\
+  update_ok_b 100 [a; b] (Cancel (Uuid 1)) (UOk (Some a)) [a; b] = false /\
+  update_ok_b 100 [a; b] (Cancel (Uuid 1)) (UOk (Some a)) [b'] = false /\
+  update_ok_b 100 [a; b] (Cancel (Uuid 1)) (UOk None) [b] = false /\
+  update_ok_b 100 [a; b] (UpdateQuantity (Uuid 2) 1) (UOk (Some b')) [b'; a] = true /\
+  update_ok_b 100 [a; b] (UpdateQuantity (Uuid 2) 1) (UOk (Some b')) [a; b] = false /\
+  update_ok_b 100 [a; b] (UpdatePrice (Uuid 2) 100) UErr [b; a] = true /\
+  update_ok_b 100 [a; b] (UpdatePrice (Uuid 2) 100) (UOk None) [a; b] = false /\
+  update_counts_b 100 [a; b] (Cancel (Uuid 1)) 9 9 2 4 9 1 = true /\
+  update_counts_b 100 [a; b] (Cancel (Uuid 1)) 9 9 2 9 9 1 = false /\
+  update_counts_b 100 [a; b] (UpdateQuantity (Uuid 2) 1) 9 9 2 6 9 2 = true.
+Proof. vm_compute. repeat split. Qed.
+
+Example Tie_judge_stats_rejects :
+  let a := Standard (mkCommon (Uuid 1) 100 Sell 1 Gtc) 5 in
+  let t := mkTx 0 (Uuid 9) (Uuid 1) 100 5 Buy in
+  let h := [(OAdd a, OutAdd a); (OMatch 5 (Uuid 9), OutMatch (mkResult (Uuid 9) [t] 0 true [Uuid 1]));
+            (OUpdate (Cancel (Uuid 1)), OutUpdate (UOk None))] in
+  stats_b 100 h 1 0 5 500 = true /\ stats_b 100 h 1 1 5 500 = false /\
+  stats_b 100 h 1 0 5 0 = false /\ stats_b 101 h 1 0 5 500 = false.
+Proof. vm_compute. repeat split. Qed.
+
+Check Tie_judge_exhaust.
+Check Tie_judge_exhaust_sound.
+Check Tie_judge_stats.
+Check Tie_judge_stats_sound.
+Check Tie_judge_update.
+Check Tie_judge_update_counts.
+Check Tie_judge_update_sound.
+
+Print Assumptions Tie_judge_exhaust.
+Print Assumptions Tie_judge_exhaust_sound.
+Print Assumptions Tie_judge_exhaust_sound_wf.
+Print Assumptions Tie_judge_stats.
+Print Assumptions Tie_judge_stats_value.
+Print Assumptions Tie_judge_stats_sound.
+Print Assumptions Tie_judge_update.
+Print Assumptions Tie_judge_update_counts.
+Print Assumptions Tie_judge_same_book.
+Print Assumptions Tie_judge_same_book_except.
+Print Assumptions Tie_judge_update_sound.
+Print Assumptions Tie_judge_update_sound_reachable.
